@@ -314,6 +314,38 @@ def gen_cases(rng, n, tier):
             ts = [_tri(rng, scale, degenerate=rng.random() < 0.15, offset=off) for _ in range(k)]
             d = [x * scale for x in grid_vec(rng)]
             cases.append({"kind": "normals", "tris": ts, "shift": d})
+        elif r < 0.40 and not is_int and i % 4 == 1:
+            # slivers: slender but non-degenerate triangles (height / base = 2^-18 .. 2^-26), axis-aligned and dyadic so
+            # that the code's cross-product route is exact in binary64 while an expanded (Lagrange-identity) route cancels
+            ts, ps = [], []
+            for _ in range(rng.randint(1, 3)):
+                L = 2.0 ** rng.randint(-6, 6)
+                if rng.random() < 0.3:
+                    # axis-aligned, dyadic: every intermediate of the cross-product route is exact
+                    ax = rng.sample([0, 1, 2], 3)
+                    hgt = L * 2.0 ** -rng.randint(18, 26)
+                    a3 = [L * rng.randint(-2, 2) for _ in range(3)]
+                    u3, v3, lift = [0.0] * 3, [0.0] * 3, [0.0] * 3
+                    u3[ax[0]] = L
+                    v3[ax[0]] = L * rng.choice([0.0, 0.5, 1.0])
+                    v3[ax[1]] = hgt
+                    lift[ax[2]] = L * rng.choice([0.0, 0.25, -1.0])
+                else:
+                    # general position, full-mantissa coordinates, height / base about 2^-14 .. 2^-18: the cross-product
+                    # route loses about eps / (h/L) (< 1e-10), an expanded |u|^2 |v|^2 - (u.v)^2 route eps / (h/L)^2
+                    a3 = [L * rng.uniform(-1, 1) for _ in range(3)]
+                    u3 = [L * rng.uniform(-1, 1) for _ in range(3)]
+                    p3 = [L * rng.uniform(-1, 1) for _ in range(3)]
+                    sf, hf = rng.uniform(0.2, 1.0), 2.0 ** -rng.randint(14, 18)
+                    v3 = [sf * u3[j] + hf * p3[j] for j in range(3)]
+                    lift = [L * rng.choice([0.0, 0.25]) * rng.uniform(-1, 1) for _ in range(3)]
+                b3 = [a3[j] + u3[j] for j in range(3)]
+                c3 = [a3[j] + v3[j] for j in range(3)]
+                w0, w1 = rng.randint(0, 4) / 4, rng.randint(0, 4) / 4
+                q = [a3[j] + w0 * (b3[j] - a3[j]) + w1 * (c3[j] - a3[j]) + lift[j] for j in range(3)]
+                ts.append([a3, b3, c3])
+                ps.append(q)
+            cases.append({"kind": "bary", "tris": ts, "points": ps, "sliver": True})
         elif r < 0.40:
             k = rng.randint(1, 4)
             ts, ps = [], []
